@@ -1,0 +1,118 @@
+//go:build verif
+
+package kfake
+
+// Verification contracts (comments only), read by /verif/govc. Compiled only with -tags verif; no code.
+
+// ---- C33: the framing kernels of the persistence layer (what a restart sees of a torn log) ----
+
+// crcOf: the CRC-32C of a byte sequence - an uninterpreted function of the CONTENTS of the slice (equal byte
+// sequences have equal checksums wherever they are stored). crc32.Checksum computes it (trusted library contract).
+//@ spec content crcOf(b []byte) uint32
+//@ extern func (crc32) Checksum(data []byte, tab *crc32.Table) (r uint32)
+//@   pure
+//@   ensures r == crcOf(data)
+
+// The frame format: [4 bytes length, little endian][4 bytes CRC][2 bytes version][data], length = 2 + len(data),
+// the CRC covers version and data.
+//@ spec le32(b []byte, p int) int = int(b[p]) + int(b[p+1])*256 + int(b[p+2])*65536 + int(b[p+3])*16777216
+//@ spec le16(b []byte, p int) int = int(b[p]) + int(b[p+1])*256
+//@ spec frameEnd(raw []byte, pos int) int = pos + 8 + le32(raw, pos)
+//@ spec frameOK(raw []byte, pos int) bool = 0 <= pos && pos+10 <= len(raw) && le32(raw, pos) >= 2 && frameEnd(raw, pos) <= len(raw) &&
+//@   int(crcOf(raw[pos+8:frameEnd(raw, pos)])) == le32(raw, pos+4)
+// chain(raw, n): the position after n frames read from the start.
+//@ spec rec chain(raw []byte, n int) int = ite(n <= 0, 0, frameEnd(raw, chain(raw, n-1)))
+
+// readEntries, for every byte string (a log file cut or corrupted anywhere): no panic; the entries returned are
+// exactly the maximal run of intact frames from the start - entry k is the frame at chain(raw, k), intact (bounds
+// and checksum), its version and data are that frame's; validBytes is the position after the last of them, within
+// the input, and the frame at validBytes is NOT intact (truncation point: nothing after the first bad entry is
+// visible, nothing before it is dropped).
+//@ func readEntries(raw []byte) (entries []entryData, validBytes int)
+//@   prop C33
+//@   nopanic
+//@   ensures [valid-prefix-within-input] 0 <= validBytes && validBytes <= len(raw) && validBytes == chain(raw, len(entries))
+//@   ensures [stops-only-at-a-bad-entry] !frameOK(raw, validBytes)
+//@   ensures [every-entry-is-an-intact-frame] forall k in 0..len(entries) :: frameOK(raw, chain(raw, k))
+//@   ensures [entry-is-its-frame] forall k in 0..len(entries) :: int(entries[k].version) == le16(raw, chain(raw, k)+8) &&
+//@     sameorigin(entries[k].data, raw[chain(raw, k)+10:]) && len(entries[k].data) == le32(raw, chain(raw, k)) - 2
+//@   unfold chain(raw, 0)
+//@   loop 0 unfold chain(raw, len(entries)+1)
+//@   loop 0 invariant 0 <= pos && pos <= len(raw) && pos == chain(raw, len(entries))
+//@   loop 0 invariant forall k in 0..len(entries) :: frameOK(raw, chain(raw, k))
+//@   loop 0 invariant forall k in 0..len(entries) :: int(entries[k].version) == le16(raw, chain(raw, k)+8)
+//@   loop 0 invariant forall k in 0..len(entries) :: sameorigin(entries[k].data, raw[chain(raw, k)+10:])
+//@   loop 0 invariant forall k in 0..len(entries) :: len(entries[k].data) == le32(raw, chain(raw, k)) - 2
+
+// writeEntry: what is handed to the single Write call is one intact frame holding exactly `data` under the current
+// version - so readEntries accepts it (frameOK is the predicate readEntries checks) - and with syncW a nil return
+// means the Write succeeded and Sync was called after it and returned nil.
+//@ func writeEntry(f file, data []byte, syncW bool) (err error)
+//@   prop C33
+//@   nopanic
+//@   assume len(data) < 4294967294 - 8  // one entry is below 4 GiB (the length field is 32 bits)
+//@   site call Grow#0 assume disjoint(arg0, data)  // the pooled buffer is private to this call (sync.Pool hands an object to one getter)
+//@   site call Write#0 assert [one-intact-frame] frameOK(arg0, 0) && frameEnd(arg0, 0) == len(arg0) && len(arg0) == 10 + len(data) && le16(arg0, 8) == currentPersistVersion
+//@   site call Write#0 assert [frame-carries-the-data] forall i in 0..len(data) :: arg0[10+i] == data[i]
+//@   site call Sync#0 assert [sync-after-successful-write] reached($Write0_1) && $Write0_1 == nil
+//@   ensures [acknowledged-means-written-and-synced] err == nil ==> (reached($Write0_1) && $Write0_1 == nil && (syncW ==> reached($Sync0)))
+
+// appendLogEntry: the bytes framed are the JSON of v, with the caller's sync flag; a nil error is writeEntry's.
+//@ func appendLogEntry(f file, v any, syncW bool) (n int, err error)
+//@   prop C33
+//@   site call writeEntry#0 assert [same-file-and-sync-flag] arg0 == f && arg2 == syncW && reached($Marshal0_1) && $Marshal0_1 == nil
+//@   ensures [nil-is-writeEntrys-nil] err == nil ==> (reached($writeEntry0) && $writeEntry0 == nil)
+
+// The state logs honour SyncWrites: the flag handed to the framing layer is the configured one, and nil is returned
+// only when persistence is off / the cluster is dead, or the append (write, and sync when configured) succeeded.
+//@ func (c *Cluster) persistGroupEntry(entry groupLogEntry) (err error)
+//@   prop C33
+//@   site call appendLogEntry#0 assert [honours-SyncWrites] arg2 == c.cfg.syncWrites
+//@   ensures [nil-only-after-the-append] err == nil ==> (!$persist0 || $Load0 || (reached($appendLogEntry0_1) && $appendLogEntry0_1 == nil))
+//@ func (c *Cluster) persistPIDEntry(entry pidLogEntry) (err error)
+//@   prop C33
+//@   site call appendLogEntry#0 assert [honours-SyncWrites] arg2 == c.cfg.syncWrites
+//@   ensures [nil-only-after-the-append] err == nil ==> (!$persist0 || $Load0 || (reached($appendLogEntry0_1) && $appendLogEntry0_1 == nil))
+
+// writeJSONFile: a snapshot file is replaced only by rename of the temporary file, after that file was written
+// and fsynced without error - so no reader ever sees a partially written snapshot.
+//@ func writeJSONFile(fsys fs, path string, v any) (err error)
+//@   prop C33
+//@   site call OpenFile#0 assert [writes-go-to-the-temporary-file] arg0 == tmpPath
+//@   site call Rename#0 assert [rename-after-write-and-sync] arg0 == tmpPath && arg1 == path && reached($Write0_1) && $Write0_1 == nil && reached($Sync0) && $Sync0 == nil
+//@   ensures [nil-means-renamed] err == nil ==> (reached($Rename0) && $Rename0 == nil)
+
+// decodeIndexEntry: no panic for any bytes; ok only for at least 15 bytes whose one-byte checksum matches.
+//@ func decodeIndexEntry(buf []byte) (epoch int32, maxEarlierTS int64, inTx bool, ok bool)
+//@   prop C33
+//@   nopanic
+//@   ensures [ok-only-with-matching-checksum] ok ==> (len(buf) >= indexEntrySize && byte(crcOf(buf[2:indexEntrySize])) == buf[1])
+//@   ensures [fields] ok ==> (int(uint32(epoch)) == le32(buf, 2) && inTx == (buf[14]&1 != 0))
+
+// loadSegmentBatches: for any segment and index file contents (torn, truncated, corrupt): no panic in the parse
+// loop; the position stays within the file and is what the file is truncated to.
+//@ func (c *Cluster) loadSegmentBatches(pd *partData, fsys fs, pdir string, base int64) (res []*partBatch, err error)
+//@   prop C33
+//@   nopanic
+//@   requires c != nil && pd != nil && fsys != nil && c.cfg.logger != nil
+//@   site call Truncate#0 assert [segment-truncated-at-the-first-bad-batch] arg0 == int64(pos) && pos < len(raw)
+//@   loop 1 invariant 0 <= pos && pos <= len(raw) && 0 <= batchIdx && batchIdx <= pos
+
+// The append logs' representation invariant: the file is a chain of intact frames and nothing else. writeEntry
+// preserves it (it appends one intact frame in one Write); a crash can break it (a torn last frame). The loaders
+// must therefore RE-ESTABLISH it before anything is appended again: when readEntries reports a valid prefix shorter
+// than the file, the file is cut back to that prefix. Otherwise later entries - acknowledged, fsynced - sit behind
+// the torn frame, where readEntries never reaches them.
+//@ func truncateStateLog(fsys fs, path string, size int64) (err error)
+//@   prop C33
+//@   site call OpenFile#0 assert [the-named-file] arg0 == path
+//@   site call Truncate#0 assert [to-the-given-size] arg0 == size
+//@   ensures [nil-means-truncated-and-synced] err == nil ==> (reached($Truncate0) && $Truncate0 == nil && reached($Sync0) && $Sync0 == nil)
+//@ func (c *Cluster) loadPIDsLog(fsys fs, dir string) (err error)
+//@   prop C33
+//@   site call truncateStateLog#0 assert [cut-to-the-valid-prefix] arg0 == fsys && arg2 == int64($readEntries0_1) && $readEntries0_1 < len($ReadFile0_0)
+//@   ensures [torn-tail-removed-before-appending] (err == nil && reached($readEntries0_1)) ==> ($readEntries0_1 >= len($ReadFile0_0) || reached($truncateStateLog0))
+//@ func (c *Cluster) loadGroupsLog(fsys fs, dir string) (err error)
+//@   prop C33
+//@   site call truncateStateLog#0 assert [cut-to-the-valid-prefix] arg0 == fsys && arg2 == int64($readEntries0_1) && $readEntries0_1 < len($ReadFile0_0)
+//@   ensures [torn-tail-removed-before-appending] (err == nil && reached($readEntries0_1)) ==> ($readEntries0_1 >= len($ReadFile0_0) || reached($truncateStateLog0))
